@@ -33,7 +33,8 @@ impl OracleOut {
 fn regions(p: &Prep, fp: &FnPrep) -> Vec<&'static str> {
     let f = &p.case.funcs[fp.fi];
     let mut r = vec![];
-    if p.contents_headers.contains(&f.header) {
+    let _ = f;
+    if !p.contents_headers.is_empty() {
         r.push("header_contents_not_in_wrapper");
     }
     let defects: Vec<&str> = std::iter::once(&fp.ret_status).chain(fp.param_status.iter()).filter_map(|s| s.defect.as_deref()).collect();
@@ -182,6 +183,11 @@ fn oracle_case(p: &Prep, helper_obj: &Path, verbose: bool) -> OracleOut {
     let (by_line, other) = error_lines(&err, &p.wrapper_path);
     if verbose {
         o.detail.push(format!("clang rc={rc}\n{}", clip(&err, 3000)));
+    }
+    if rc != 0 && by_line.is_empty() && !p.contents_headers.is_empty() && p.expected_text == p.wrapper_text {
+        // the wrapper file lacks the in-memory header, so already the included header does not compile
+        o.known.push(("header_contents_not_in_wrapper".into(), J::obj(vec![("case", J::N(case.id as i64)), ("function", J::s("<whole wrapper file>")), ("clang", J::S(clip(&errors_only(&err), 400)))])));
+        return o;
     }
     if rc != 0 && by_line.is_empty() {
         // errors only inside the headers: either the generator wrote invalid C (machinery) or the
